@@ -252,7 +252,7 @@ func TestVerifC17(t *testing.T) {
 		return
 	}
 	rr := r.Rand("c17", part)
-	n := r.Pick(300, 5000)
+	n := r.Pick(300, 15000)
 	for i := 0; i < n; i++ {
 		id := fmt.Sprintf("cfg/%d", i)
 		seed := rr.Int63()
@@ -477,7 +477,7 @@ func TestVerifC17(t *testing.T) {
 // initialises and re-initialises; the race detector is the oracle.
 func c17Race(t *testing.T, r *vlib.Run) {
 	rr := r.Rand("c17", "race")
-	n := r.Pick(30, 500)
+	n := r.Pick(30, 1500)
 	for i := 0; i < n; i++ {
 		id := fmt.Sprintf("race/%d", i)
 		seed := rr.Int63()
